@@ -569,6 +569,17 @@ def setitem(x, idx, val):
     else:
         va, vk = _arr(val)
         if x._k == 'f': va = _as_float_entries(va)
+    if x._k == 'i':
+        # writing into an integer tensor truncates toward zero (torch copies with a cast): exact for constants, a gap for symbolic values
+        def _trunc(e):
+            if isinstance(e, (_pybool, _pyint)): return _pyint(e)
+            if isinstance(e, Frac):
+                if e.is_const(): return _pyint(math.trunc(e.cval()))
+                raise EngineGap("a symbolic real is stored into an integer tensor (truncation)")
+            return e
+        vt = np.empty(va.shape, dtype=object)
+        for i_ in np.ndindex(va.shape): vt[i_] = _trunc(va[i_])
+        va = vt
     tgt = x._a[ci]
     if isinstance(tgt, np.ndarray):
         if tgt.size == 0: return
@@ -999,6 +1010,17 @@ def softplus(x, beta=1, threshold=20):
         if decide(v * bq > tq): return v
         return AT.log(Frac.const(1) + AT.exp(v * bq)) / bq
     return _ew1(f, x, 'f')
+@api
+def unflatten(x, dim, sizes):
+    sizes = [_pyint(v) for v in sizes]
+    d = dim if dim >= 0 else x._a.ndim + dim
+    n = x._a.shape[d]
+    if -1 in sizes:
+        known = 1
+        for v in sizes:
+            if v != -1: known *= v
+        sizes = [n // known if v == -1 else v for v in sizes]
+    return _mk(x._a.reshape(x._a.shape[:d] + tuple(sizes) + x._a.shape[d + 1:]), x._k)
 @api
 def count_nonzero(x, dim=None):
     nz = ne(x, 0) if x._k != 'b' else x
@@ -1451,7 +1473,7 @@ def _bind():
     g = globals()
     names = '''add sub mul div neg pow sin cos tan exp log sqrt atan arctan asin arcsin acos abs sign nan_to_num square
         reciprocal rsqrt gt ge lt le eq ne logical_not logical_and logical_or all any sum mean prod cumsum max min amax amin
-        argmax argmin clamp clip clamp_min clamp_max diff softmax bitwise_left_shift count_nonzero unsqueeze squeeze expand expand_as repeat repeat_interleave tile reshape view view_as flatten ravel transpose
+        argmax argmin clamp clip clamp_min clamp_max diff softmax bitwise_left_shift count_nonzero unflatten unsqueeze squeeze expand expand_as repeat repeat_interleave tile reshape view view_as flatten ravel transpose
         swapaxes swapdims permute movedim moveaxis t split chunk unbind select narrow index_select gather take_along_dim flip roll
         diagonal matmul mm bmm mv dot norm det inverse topk sort argsort median std var rad2deg where isnan isinf isfinite floor ceil round floor_divide remainder
         maximum minimum tril triu atan2 cross outer diag trace expm1 log1p vecdot multiply divide true_divide absolute'''.split()
